@@ -5,12 +5,12 @@ use proptest::prelude::*;
 use serde::{Deserialize, Serialize};
 
 use crate::engine::{hash_json, part, Ctx, PartDef, Rec};
-use crate::opt::{landscape_strat, run_script, same_bits, steps_inner, ForcedPolicy, Landscape, LandscapePolicy, OptCfg, RunOut};
-use crate::probe::{Decision, Expect, Probe};
+use crate::opt::{landscape_strat, run_script_shadow, same_bits, steps_inner, ForcedPolicy, Landscape, LandscapePolicy, OptCfg, RunOut};
+use crate::probe::{Decision, Mode, Probe};
 use crate::statejson::{self, ShapeSpec};
 
 pub const TITLE: &str = "Zero-temperature optimisation never lowers the score";
-pub const RULE: &str = "cases = optimiser configuration with kt_start = 0 x {kt_finish in {None,0,1e-3,0.1,10}} x {kt_ratio in {None,0,0.1,1}} x steps 1..6000 x inner_steps giving 1..30 loops (multiples, non-multiples, inner > steps) x max_step_size 1e-4..1 x convergence {None,0,1e-6,1} x seed, on (a) synthetic states with 2..8 parameters whose score is a generated landscape (concave + ripple + plateaus + an undefined band), (b) synthetic states with a cyclic script of forced outcomes relative to the current score (better, equal, worse, undefined), (c) real hard and Lennard-Jones states of all groups behind a logging probe. Oracle (kT=0 is deterministic): score of the returned state >= score of the input (exact); every accepted proposal scores >= the state it replaced; a worse or undefined proposal is never the base of the next proposal. Non-trivial = >= 2 inner loops ran and >= 1 strictly worse proposal was seen after the first loop; distinct by hash of the case.";
+pub const RULE: &str = "cases = optimiser configuration with kt_start = 0 x {kt_finish in {None,0,1e-3,0.1,10}} x {kt_ratio in {None,0,0.1,1}} x steps 1..6000 x inner_steps giving 1..30 loops (multiples, non-multiples, inner > steps) x max_step_size 1e-4..1 x convergence {None,0,1e-6,1} x seed, on (a) synthetic states with 2..8 parameters whose score is a generated landscape (concave + ripple + plateaus + an undefined band), (b) synthetic states with a cyclic script of forced outcomes relative to the current score (better, equal, worse, undefined), (c) real hard and Lennard-Jones states of all groups behind a logging probe. Oracle: score of the returned state >= score of the input (exact); and the trace of evaluated parameter vectors must be explained by a history in which only proposals scoring at least the current score are ever kept (a trace model that allows every such history — including ones that reject improvements, which is not this property's concern — and nothing else): if none exists, a worse or undefined proposal was kept. Non-trivial = >= 2 inner loops ran and >= 1 strictly worse proposal was seen after the first loop; distinct by hash of the case.";
 
 pub fn assumptions() -> Vec<&'static str> {
     vec![
@@ -46,53 +46,39 @@ fn land_strat(_: &Ctx) -> BoxedStrategy<LandCase> {
         .boxed()
 }
 
-/// the C05 judgement on a finished run at kT = 0; returns (loops run, worse-after-first-loop seen)
-pub fn judge_zero_temperature(out: &RunOut, cfg: &OptCfg, what: &str) -> Result<(u64, bool), String> {
+/// the C05 judgement on a finished run at kT = 0; returns (loops run, worse-after-first-loop seen).
+/// `mono` = first inconsistency of the model that allows exactly what C05 permits (a proposal scoring >= the
+/// current state may be accepted or rejected, a worse or unscored one must be rejected).
+pub fn judge_zero_temperature(out: &RunOut, mono: &Option<(usize, String)>, cfg: &OptCfg, what: &str, final_score_is_observed: bool) -> Result<(u64, bool), String> {
     let s0 = out.initial.as_ref().map(|c| c.score).ok_or("no initial call")?;
     let inner = cfg.inner_eff().max(1);
     let proposals = out.steps.len() as u64;
     let mut worse_late = false;
-    for (ix, st) in out.steps.iter().enumerate() {
+    for st in out.steps.iter() {
         let k = st.k as u64;
         if k > cfg.proposals() {
-            break; // final validity call
+            break;
         }
         if let (Some(base), Some(ret)) = (st.base_score, st.returned) {
             if ret < base && k > inner {
                 worse_late = true;
             }
-            if st.outcome == Some(true) && ret < base {
-                return Err(format!("{}: at kt_start = 0 proposal #{} with score {} replaced a state with score {} (accepted a worse move; loop {})", what, k, ret, base, (k - 1) / inner + 1));
-            }
         }
-        if st.returned.is_none() && st.outcome == Some(true) {
-            return Err(format!("{}: proposal #{} without a defined score was accepted", what, k));
-        }
-        let _ = ix;
     }
-    if let Some((k, _)) = &out.inconsistency {
-        // is the inconsistent proposal explained by the previous (worse / undefined) proposal having been accepted?
-        if *k >= 2 {
-            let prev = &out.steps[k - 2];
-            let cur = &out.steps[k - 1];
-            let diff = prev.proposal.iter().zip(cur.proposal.iter()).filter(|(a, b)| a.to_bits() != b.to_bits()).count();
-            let prev_worse = match (prev.returned, prev.base_score) {
-                (None, _) => true,
-                (Some(r), Some(b)) => r < b,
-                _ => false,
-            };
-            if diff <= 1 && prev_worse && prev.expect == Some(Expect::Reject) {
-                return Err(format!(
-                    "{}: at kt_start = 0 proposal #{} (score {:?}, worse than the current {:?}) became the base of proposal #{}: a worse move was accepted (loop {})",
-                    what,
-                    prev.k,
-                    prev.returned,
-                    prev.base_score,
-                    cur.k,
-                    (prev.k as u64 - 1) / inner + 1
-                ));
-            }
-        }
+    if let Some((k, msg)) = mono {
+        let prev = if *k >= 2 { out.steps.get(k - 2) } else { None };
+        return Err(format!(
+            "{}: at kt_start = 0 no history in which only proposals scoring at least the current score are accepted explains the trace: a worse or undefined proposal was kept (loop {}; previous proposal #{} scored {:?}); {}",
+            what,
+            (*k as u64).saturating_sub(1) / inner + 1,
+            k - 1,
+            prev.map(|p| p.returned),
+            msg
+        ));
+    }
+    if out.inconsistency.is_some() && !final_score_is_observed {
+        // the forced script answers relative to the Metropolis model's current score, which is unknown here
+        return Ok((proposals.min(cfg.proposals()) / inner, worse_late));
     }
     if let Some(Some(fin)) = out.returned_score {
         if fin < s0 {
@@ -110,13 +96,13 @@ fn land_oracle(c: &LandCase, rec: &Rec, _: &Ctx) -> Result<(), String> {
         return Ok(());
     }
     let bounds: Vec<(f64, f64)> = c.init.iter().map(|_| (0., 1.)).collect();
-    let out = run_script(&c.cfg, &c.init, &bounds, true, true, Box::new(LandscapePolicy(c.land.clone())));
+    let out = run_script_shadow(&c.cfg, &c.init, &bounds, true, true, Mode::Monotone, Box::new(LandscapePolicy(c.land.clone())));
     rec.eval(out.steps.len() as u64 + 1);
     if out.panicked.is_some() {
         rec.class("panicked-not-judged-here");
         return Ok(());
     }
-    let (loops, worse_late) = judge_zero_temperature(&out, &c.cfg, "landscape")?;
+    let (loops, worse_late) = judge_zero_temperature(&out, &out.shadow_inconsistency, &c.cfg, "landscape", true)?;
     finish(rec, "landscape", loops, worse_late, &c.cfg, || serde_json::to_value(c).unwrap());
     Ok(())
 }
@@ -168,13 +154,19 @@ fn forced_oracle(c: &ForcedCase, rec: &Rec, _: &Ctx) -> Result<(), String> {
     let init = vec![0.5; c.n];
     let bounds = vec![(0., 1.); c.n];
     let policy = ForcedPolicy { decisions: c.decisions.clone(), base: 1.0, proposals: c.cfg.proposals() };
-    let out = run_script(&c.cfg, &init, &bounds, true, true, Box::new(policy));
+    let out = run_script_shadow(&c.cfg, &init, &bounds, true, true, Mode::Monotone, Box::new(policy));
     rec.eval(out.steps.len() as u64 + 1);
     if out.panicked.is_some() {
         rec.class("panicked-not-judged-here");
         return Ok(());
     }
-    let (loops, worse_late) = judge_zero_temperature(&out, &c.cfg, "forced script")?;
+    if std::env::var("PVH_DEBUG").is_ok() {
+        for st in out.steps.iter() {
+            eprintln!("k={} prop={:?} ret={:?} n_bases={} base={:?} base_score={:?} expect={:?} outcome={:?}", st.k, st.proposal, st.returned, st.n_bases, st.base, st.base_score, st.expect, st.outcome);
+        }
+        eprintln!("inconsistency={:?}", out.inconsistency);
+    }
+    let (loops, worse_late) = judge_zero_temperature(&out, &out.shadow_inconsistency, &c.cfg, "forced script", false)?;
     finish(rec, "forced", loops, worse_late, &c.cfg, || serde_json::to_value(c).unwrap());
     Ok(())
 }
@@ -205,6 +197,7 @@ fn run_real<S: State>(state: S, cfg: &OptCfg) -> Result<RunOut, String> {
     let _ = s0;
     let probe = Probe::new(state, true);
     let model = probe.model.clone();
+    model.lock().unwrap().mode = Mode::Monotone;
     let cfg2 = cfg.clone();
     let res = std::panic::catch_unwind(std::panic::AssertUnwindSafe(move || {
         let out = cfg2.build().optimise_state(probe);
@@ -254,7 +247,7 @@ fn real_oracle(c: &RealCase, rec: &Rec, _: &Ctx) -> Result<(), String> {
         rec.class("panicked-not-judged-here");
         return Ok(());
     }
-    let (loops, worse_late) = judge_zero_temperature(&out, &c.cfg, if c.lj { "Lennard-Jones state" } else { "hard state" })?;
+    let (loops, worse_late) = judge_zero_temperature(&out, &out.inconsistency, &c.cfg, if c.lj { "Lennard-Jones state" } else { "hard state" }, true)?;
     let _ = same_bits;
     finish(rec, if c.lj { "real-lj" } else { "real-hard" }, loops, worse_late, &c.cfg, || serde_json::to_value(c).unwrap());
     Ok(())
